@@ -188,6 +188,14 @@ func (s *c18Sys) targets(rnd *rand.Rand, allowBad bool) []string {
 	if allowBad && rnd.Intn(12) == 0 {
 		out[0] = fmt.Sprintf("bad-%d", s.seq.Add(1))
 	}
+	if allowBad && rnd.Intn(12) == 0 {
+		// several targets that never become healthy: their waiters give up together at the deploy deadline while the
+		// command disposes the rejected balancer
+		out = out[:0]
+		for i := 0; i < 2+rnd.Intn(2); i++ {
+			out = append(out, fmt.Sprintf("bad-%d", s.seq.Add(1)))
+		}
+	}
 	return out
 }
 
@@ -273,6 +281,23 @@ func (s *c18Sys) op(rnd *rand.Rand, kind string) {
 			r2 := NewRouter(s.router.statePath)
 			if r2.RestoreLastSavedState() == nil {
 				r2.statePath = filepath.Join(s.dir, "restored.state")
+				// every command a restored process may be given in the state it was restored in (paused, stopped,
+				// with or without rollout targets): none may panic
+				for n := range r2.ListActiveServices() {
+					switch rnd.Intn(5) {
+					case 0:
+						r2.ResumeService(n)
+					case 1:
+						r2.StopService(n, c18DrainTimeout, "down")
+						r2.ResumeService(n)
+					case 2:
+						r2.PauseService(n, c18DrainTimeout, c18PauseTimeout)
+						r2.ResumeService(n)
+					case 3:
+						r2.SetRolloutSplit(n, rnd.Intn(101), []string{"u1"})
+						r2.StopRollout(n)
+					}
+				}
 				for n := range r2.ListActiveServices() {
 					r2.RemoveService(n)
 				}
